@@ -544,7 +544,19 @@ async fn attachments_view(acc: &mut LocalAccount, download: bool) -> Result<BTre
                     out.insert(key, "<listed>".into());
                     continue;
                 }
-                let r = acc.download_file(&v, &sid, &name).await;
+                // age derives the largest scrypt work factor it accepts from
+                // the current speed of the machine: under load it may refuse a
+                // blob it encrypted a moment ago; that refusal is retried
+                let mut r = acc.download_file(&v, &sid, &name).await;
+                for _ in 0..10 {
+                    match &r {
+                        Err(e) if e.to_string().to_lowercase().contains("work parameter") => {
+                            tokio::time::sleep(std::time::Duration::from_secs(2)).await;
+                            r = acc.download_file(&v, &sid, &name).await;
+                        }
+                        _ => break,
+                    }
+                }
                 out.insert(
                     key,
                     match r {
